@@ -620,3 +620,29 @@ package diff
 //@ loop 2 step len(sd.Diffs) >= old(len(sd.Diffs))
 //@ loop 3 step vs_has(sd.Definitions1, name2) ==> len(sd.Diffs) == old(len(sd.Diffs))
 //@ loop 3 step !vs_has(sd.Definitions1, name2) ==> len(sd.Diffs) == old(len(sd.Diffs))+1 && sd.Diffs[len(sd.Diffs)-1].Code == AddedDefinition
+
+// ---- change codes in the JSON report and in the ignore file (C15) ----
+
+//@ func SpecChangeCode.MarshalJSON
+//@ props C15
+//@ ensures vs_called("stringAsQuotedBytes") && vs_callArg[string]("stringAsQuotedBytes", 0) == toStringSpecChangeCode[s]
+
+//@ func (*SpecChangeCode).UnmarshalJSON
+//@ props C15
+//@ requires s != nil
+//@ modifies s
+//@ ensures vs_called("readStringFromByteStream")
+//@ ensures vs_callResult[error]("readStringFromByteStream", 1) != nil ==> result != nil && *s == old(*s)
+//@ ensures vs_callResult[error]("readStringFromByteStream", 1) == nil && vs_has(toIDSpecChangeCode, vs_callResult[string]("readStringFromByteStream", 0)) ==> result == nil && *s == toIDSpecChangeCode[vs_callResult[string]("readStringFromByteStream", 0)]
+//@ ensures vs_callResult[error]("readStringFromByteStream", 1) == nil && !vs_has(toIDSpecChangeCode, vs_callResult[string]("readStringFromByteStream", 0)) ==> result != nil && *s == old(*s)
+
+//@ func Compatibility.MarshalJSON
+//@ props C15
+//@ ensures vs_called("stringAsQuotedBytes") && vs_callArg[string]("stringAsQuotedBytes", 0) == toStringCompatibility[s]
+
+//@ func (*Compatibility).UnmarshalJSON
+//@ props C15
+//@ requires s != nil
+//@ modifies s
+//@ ensures vs_callResult[error]("readStringFromByteStream", 1) == nil && vs_has(toIDCompatibility, vs_callResult[string]("readStringFromByteStream", 0)) ==> result == nil && *s == toIDCompatibility[vs_callResult[string]("readStringFromByteStream", 0)]
+//@ ensures vs_callResult[error]("readStringFromByteStream", 1) == nil && !vs_has(toIDCompatibility, vs_callResult[string]("readStringFromByteStream", 0)) ==> result != nil
